@@ -106,6 +106,13 @@ CLAIMED = {
         "substitution toggled inside scripts, SQL and commands, compared with the model and the generator's reference expansion; test-directory identity/uniqueness/removal observed on live runners incl. the library's run_parallel.",
    ref="4/C13", technique="Coq proof (template parser round trip) + differential correspondence",
    note="Trusted: Coq kernel; process environment as oracle table; partial: test-directory uniqueness/removal is tempfile/OS behaviour (observed, not proved); __NOW__ and the directory path canonicalised."),
+ "C05": dict(
+   text="Coq theorems C05_format_sound (for every parseable text without a CR-terminated line: the written records parse again to a semantically equal script), C05_format_idem (formatting the formatted text reproduces it byte for byte), "
+        "C05_duration_roundtrip (every Duration is written as one word that humantime reads back to the same value), C05_default_columns_stable - about the parser model and the model of Display; proved through an invariant of parser output, "
+        "a canonical re-rendering and the C03 round trip. Correspondence: parse -> Display -> parse -> Display on generated scripts and all fixtures vs the model, semantic equality and idempotence evaluated on the implementation, "
+        "and `sqllogictest --format` run twice on real files (bytes vs model incl. the trailing-newline trimmer, files with 0..100 trailing blank lines). Defects D1 D2 D14 D17 found and fixed; D16 known.",
+   ref="4/C05", technique="Coq proof (parser-output invariant + C03 round trip + humantime number theory) + differential correspondence incl. the real CLI",
+   note="Trusted: Coq kernel; premises col_stable (proved for both column types used) and no_trailing_cr (D16 listed as known finding); Regex::new validity oracle."),
 }
 
 PENDING = "check not built yet in this session (machinery under construction); no claim is made"
